@@ -6,6 +6,8 @@ import (
 	"encoding/hex"
 	"encoding/json"
 	"fmt"
+	dbm "github.com/cosmos/cosmos-db"
+	"os"
 	"runtime/debug"
 	"sort"
 	"time"
@@ -223,13 +225,18 @@ type Chain struct {
 	Monitors []Monitor
 	cleanup  func()
 
-	Height                   int64 // last committed height
-	Time                     time.Time
-	Dead                     bool
-	valsets                  map[int64][]CometVal    // valsets[h] votes on block h
-	lastExt                  abci.ExtendedCommitInfo // commit carried by the block being / last executed
-	pendingVotes             map[string]VoteSpec     // cons addr -> vote on the block just committed
-	PendingHonest            map[string][]byte
+	Height        int64 // last committed height
+	Time          time.Time
+	Dead          bool
+	valsets       map[int64][]CometVal    // valsets[h] votes on block h
+	lastExt       abci.ExtendedCommitInfo // commit carried by the block being / last executed
+	pendingVotes  map[string]VoteSpec     // cons addr -> vote on the block just committed
+	PendingHonest map[string][]byte
+	leak          *leakDB
+	IterLeaks     int // iterators found open at commit time (closed by the driver)
+	// LastHonest: what an honest node would have put into the vote extensions that travel in the commit of the block
+	// being executed now (the PendingHonest of the previous height)
+	LastHonest               map[string][]byte
 	ExtVerdicts, ExtRejected int
 
 	observing     bool
@@ -269,8 +276,13 @@ func (c *Chain) TxIndex() int  { return c.txIndex }
 // NewChain creates the app, runs InitChain and commits nothing yet (height 0).
 func NewChain(w *World, o AppOpts, monitors ...Monitor) *Chain {
 	h := &Hooks{}
+	var leak *leakDB
+	if o.DB == nil {
+		leak = newLeakDB(dbm.NewMemDB())
+		o.DB = leak
+	}
 	a, cleanup := NewApp(o, h)
-	c := &Chain{PanicLog: o.PanicLog, W: w, App: a, Monitors: monitors, cleanup: cleanup, valsets: map[int64][]CometVal{}, pendingVotes: map[string]VoteSpec{}, Flags: map[string]bool{}}
+	c := &Chain{PanicLog: o.PanicLog, W: w, App: a, Monitors: monitors, cleanup: cleanup, valsets: map[int64][]CometVal{}, pendingVotes: map[string]VoteSpec{}, Flags: map[string]bool{}, leak: leak}
 	h.chain = c
 	req := w.InitChainRequest(a)
 	res, err := a.InitChain(req)
@@ -484,6 +496,7 @@ func (c *Chain) NextBlock(p BlockPlan) *BlockResult {
 	// the validators of height h now precommit block h: extensions are built on the state committed at h-1
 	// (what ExtendVote sees) and filtered through the real VerifyVoteExtension, as the consensus engine does.
 	c.pendingVotes = map[string]VoteSpec{}
+	c.LastHonest = c.PendingHonest
 	c.PendingHonest = map[string][]byte{}
 	ectx := c.App.NewUncachedContext(false, cmtproto.Header{ChainID: ChainID, Height: h, Time: t}).WithGasMeter(storetypes.NewInfiniteGasMeter())
 	for _, v := range vs {
@@ -544,6 +557,17 @@ func (c *Chain) NextBlock(p BlockPlan) *BlockResult {
 	}
 	br.Res = res
 	br.AppHash = res.AppHash
+	// an iterator somebody forgot to close would make the in-memory database wait for ever in Commit: count it, say
+	// where it came from (VERIF_ITER_STACKS=1) and close it
+	if c.leak != nil {
+		if n, st := c.leak.OpenIterators(); n > 0 {
+			c.IterLeaks += n
+			if st != "" {
+				fmt.Fprintf(os.Stderr, "ITERATOR-LEAK height=%d open=%d first created at:\n%s\n", h, n, st)
+			}
+			c.leak.CloseLeaked()
+		}
+	}
 	if _, err := c.App.Commit(); err != nil {
 		br.Err = fmt.Errorf("Commit: %w", err)
 		br.Phase = PhaseCommit
